@@ -149,8 +149,8 @@ static bool parseUnsigned(const char*& x, unsigned long long& out, unsigned long
 			return false;
 		}
 	}
-	if (err == x || out > uMax) {
-		return false;
+	if (err == x || out > uMax || std::memchr(x, '-', static_cast<std::size_t>(err - x)) != 0) {
+		return false; // no number, too large, or a negative number that strtoull silently negated (e.g. " -5")
 	}
 	x = err;
 	return true;
